@@ -189,7 +189,7 @@ PROPERTIES = {'C18': [g.name for g in GROUPS]}
 ASSUMPTIONS = {'C18': ['in group book_select Book::getWeight is assumed to be a deterministic function of (count, pgBook) (uninterpreted function); its range is proved in group book_getWeight',
                        'assumed contracts: ghost_readEntry (file read lambda), ghost_legal_moves (MoveGen, C01), ghost_nextInt (Random::nextInt in [0,n)), ghost_sqrt (::sqrt, non-negative and <= max(1,x))',
                        'polyglot files smaller than 2 GiB (numEntries <= 2^27)']}
-NOT_DECIDED = {'C18': ['std::fstream behaviour, the built-in book map, positive probability of every stored move',
+NOT_DECIDED = {'C18': ['std::fstream behaviour, the built-in book map, the distribution of Random::nextInt (the selection window of every entry is decided)',
                        'data bounds of the selection proof: at most 4 book entries for the position and 16 legal moves (loops unrolled to these bounds with unwinding assertions)']}
 
 MUTANTS = [
